@@ -8,14 +8,14 @@ ALLOWED_AXIOMS = set()
 EXHAUSTIVE = True
 SHRINK = False
 MANIFEST = {
-    "text": "Coq theorems about a model of Matcher::new / to_glob_string, of glob matching at segment level and of the selection done by v1 Get, v1 Subscribe and v2 ListMetadata (incl. the branch fallback): everything selected lies inside the liberal reading of the pattern (soundness), every signal in the strict documented reading is selected for patterns that do not mix '**' with '*' (completeness), the empty pattern selects everything, invalid patterns are rejected with nothing returned. Tied to the code on every run by an exhaustive sweep: every pattern up to length 3/4 over {A,B,Ab,*,**} x every prefix-free tree of a bounded universe, through the three real handlers and the raw Matcher, plus a character-level validity stream; the liberal/strict inclusions are re-checked on the implementation's own answers by an independent Python oracle.",
+    "text": "Coq theorems about a model of Matcher::new / to_glob_string, of glob matching at segment level and of the selection done by v1 Get, v1 Subscribe and v2 ListMetadata (incl. the branch fallback): everything selected lies inside the liberal reading of the pattern (soundness), every signal in the strict documented reading is selected for patterns that do not mix '**' with '*' (completeness), the empty pattern selects everything, invalid patterns are rejected with nothing returned. Tied to the code on every run by an exhaustive sweep: every pattern up to length 3/4 over {A,B,Ab,*,**} x every prefix-free tree of a bounded universe, through the three real handlers (v1 Get also as a two-entry request, the pattern after an anchor path that matches, so that entries of one request are answered independently) and the raw Matcher, plus a character-level validity stream; the liberal/strict inclusions are re-checked on the implementation's own answers by an independent Python oracle.",
     "note": "Trusted: Coq kernel (axiom-free theorems); extraction + OCaml driver (vm_compute cross-check); harness/src/fam_glob.rs. Modelled, not verified: the glob-match 0.2.1 crate (its behaviour on the supported fragment is compared exhaustively; for patterns mixing '**' and '*' the model only over-approximates it and only the two inclusions are asserted), the regex crate.",
     "technique": "machine-checked proof in Coq + exhaustive bounded-universe differential correspondence",
 }
 RULE = ("exhaustive: all patterns of length <= L over {A, B, Ab, *, **} (L=3 quick, 4 thorough) plus the empty "
         "pattern, against every prefix-free signal tree drawn from a bounded universe (all subsets-of-leaves "
         "trees of depth <= 3 over {A,B,Ab} in thorough; a covering family of 40 trees incl. single-segment "
-        "leaves in quick), through v1 Get, v1 Subscribe, v2 ListMetadata and the raw Matcher; plus a "
+        "leaves in quick), through v1 Get (single entry and as second of two entries), v1 Subscribe, v2 ListMetadata and the raw Matcher; plus a "
         "character-level stream for validity; non-trivial = pattern selected a non-empty proper subset, or was "
         "rejected; distinct = (api, pattern, tree id, answer)")
 TRUSTED = ["extraction: ExtrOcamlBasic only; driver ocaml/model_run.ml",
@@ -90,7 +90,7 @@ def generate(rng, tier):
     lines = [[1] + E.s("A.B")]
     for b in bits:
         lines.append([4] + E.s(b))
-    alphabet = "AB.*: _\t"
+    alphabet = "AB.*: _\t" + "\u00a0\u000b\u2028\u3000\u00e9"      # incl. whitespace beyond ASCII (regex \\s) and a non-ASCII letter
     for _ in range(300 if tier == "quick" else 5000):
         s = "".join(rng.choice(alphabet) for _ in range(rng.randrange(0, 8)))
         lines.append([4] + E.s(s))
